@@ -120,8 +120,8 @@ class FakeSock:
 
     send = sendall
 
-    def pending(self):
-        """True when a read would not block (bytes, EOF or error pending)."""
+    def _readable(self):
+        """True when a read would not block (bytes, EOF or error pending) - what select()/poll() report."""
         return bool(self.peer and self.peer.events)
 
     def _recv(self, n):
@@ -238,7 +238,7 @@ class FakeSocketModule(types.ModuleType):
         net_ref = net
 
         def _socket(family=-1, type=-1, proto=-1, fileno=None):
-            return FakeSock(net_ref, family, type, proto)
+            return (TlsLikeSock if getattr(net_ref, "tls_like", False) else FakeSock)(net_ref, family, type, proto)
 
         def _getaddrinfo(host, port, family=0, type=0, proto=0, flags=0):
             return net_ref.resolve(host, port)
@@ -247,11 +247,36 @@ class FakeSocketModule(types.ModuleType):
         self.getaddrinfo = _getaddrinfo
 
 
+class TlsLikeSock(FakeSock):
+    """A socket that behaves like an SSLSocket in one respect: each segment the peer sends is a TLS record that is decrypted
+    as a whole by the first recv() touching it; what that recv() does not return stays inside the TLS layer, where pending()
+    reports it and select()/poll() do not see it."""
+
+    def __init__(self, *a, **kw):
+        super().__init__(*a, **kw)
+        self._partial = False
+
+    def _recv(self, n):
+        before = len(self.peer.events) if self.peer else 0
+        head = self.peer.events[0] if before else None
+        out = super()._recv(n)
+        ev = self.peer.events
+        self._partial = bool(isinstance(head, (bytes, bytearray)) and head != b"" and len(ev) == before and ev and ev[0] is not head)
+        return out
+
+    def _readable(self):
+        ev = self.peer.events if self.peer else []
+        return len(ev) > 1 if self._partial else bool(ev)
+
+    def pending(self):
+        return len(self.peer.events[0]) if self._partial and self.peer and self.peer.events else 0
+
+
 def fake_wait_for_socket(sock, read=False, write=False, timeout=None):
     if isinstance(sock, FakeSock):
         if sock.really_closed:
             return True
-        if read and sock.pending():
+        if read and sock._readable():
             return True
         if write:
             return True
